@@ -1276,6 +1276,22 @@ class Gen:
                     dn = fg.lname(d); fg.decls[dn] = cg.ctype(rt); fg.vtypes[d] = rt
                     code.append('%s = (%s)malloc(sizeof(%s)); VERIF_ASSUME(%s != 0);' % (dn, cg.ctype(rt), cg.ctype(ty), dn))
                     result = ('stmt', None)
+            if result is None and callee_name == '_Znam' and d is not None and self.opts.new_array_max:
+                # operator new[]: allocate a TYPED array object (cookie + elements) of constant size so that CBMC keeps
+                # element/field sensitivity; a symbolic-size or byte-typed array holding pointers explodes in the solver
+                hint = self.new_array_hint(fg, d)
+                if hint is not None:
+                    cookie, et = hint
+                    es = self.size_align(et)[0]
+                    cm = re.fullmatch(r'(\d+)(ULL|U)?', args[0][0])
+                    total = int(cm.group(1)) if cm else self.opts.new_array_max
+                    k = max(1, (total - cookie) // es)
+                    at = ('lstruct', ((('int', 64),) if cookie else ()) + (('array', k, et),), False)
+                    dn = fg.lname(d); fg.decls[dn] = cg.ctype(rt); fg.vtypes[d] = rt
+                    if not cm:
+                        code.append('if (%s > %dULL) { VERIF_CHECK(0, "bound: operator new[] request larger than --new-array-max"); VERIF_ASSUME(0); }' % (args[0][0], self.opts.new_array_max))
+                    code.append('%s = (%s)malloc(sizeof(%s)); VERIF_ASSUME(%s != 0);' % (dn, cg.ctype(rt), cg.ctype(at), dn))
+                    result = ('stmt', None)
             if result is None:
                 self.note_ref(callee_name, fg)
                 cn = cg.gname(callee_name)
@@ -1523,6 +1539,48 @@ class Gen:
             fdef = self.mod.funcs.get(fn)
             if fdef and not fn.startswith('llvm.') and self.sig_compat(fdef, fty): cands.append(fn)
         return cands
+    def new_array_hint(self, fg, d):
+        """(cookie_bytes, element_type) for the result %d of operator new[]: bitcast of the pointer itself (no cookie) or of
+        the pointer advanced by an 8-byte array cookie"""
+        body = fg.f['body']
+        def cast_of(name):
+            pat = re.compile(r'= bitcast i8\* ' + re.escape(name) + r' to ')
+            for l in body:
+                if pat.search(l):
+                    toks = lex(l.strip()); p = P(toks, self.mod)
+                    try:
+                        while not p.at('to'): p.next()
+                        p.next(); t = p.parse_type()
+                    except IRError:
+                        continue
+                    if t[0] == 'ptr' and t[1] != ('int', 64) and self.size_align(t[1]): return t[1]
+            return None
+        def stored_as(name):
+            # store i8* name, i8** %dst   with  %dst = bitcast T** %y to i8**
+            pat = re.compile(r'^\s*store i8\* ' + re.escape(name) + r', i8\*\* (%[-\w.$"]+)')
+            for l in body:
+                m = pat.match(l)
+                if m:
+                    dpat = re.compile(r'^\s*' + re.escape(m.group(1)) + r' = bitcast (.+)\*\* (%[-\w.$"]+) to i8\*\*')
+                    for l2 in body:
+                        m2 = dpat.match(l2)
+                        if m2:
+                            try:
+                                t = P(lex(m2.group(1)), self.mod).parse_type()
+                            except IRError:
+                                continue
+                            if self.size_align(t): return t
+            return None
+        t = cast_of(d) or stored_as(d)
+        gep = re.compile(r'^\s*(%\S+) = getelementptr (?:inbounds )?i8, i8\* ' + re.escape(d) + r', i64 8\s*$')
+        for l in body:
+            m = gep.match(l.split(', !')[0])
+            if m:
+                t2 = cast_of(m.group(1)) or stored_as(m.group(1))
+                if t2 is not None: return (8, t2)
+        if t is not None: return (0, t)
+        # char arrays are used as i8* directly
+        return (0, ('int', 8))
     def new_type_hint(self, fg, d, n):
         """struct type T with sizeof(T)==n that the result %d of operator new is bitcast to in this function"""
         pat = re.compile(r'= bitcast i8\* ' + re.escape(d) + r' to ')
@@ -1572,12 +1630,13 @@ class Gen:
             code.append('VERIF_COVER(%s);' % c_string(lab)); return ('stmt', None)
         if not name.startswith('llvm.'): return None
         base = name
+        lit = len(A) > 2 and re.fullmatch(r'\d+(ULL|U)?', A[2]) is not None
         if name.startswith('llvm.memcpy.'):
-            return ('expr', 'VERIF_MEMCPY(%s, %s, %s)' % (A[0], A[1], A[2]))
+            return ('expr', ('VERIF_MEMCPY(%s, %s, %s)' if lit else 'verif_memcpy_v(%s, %s, %s)') % (A[0], A[1], A[2]))
         if name.startswith('llvm.memmove.'):
-            return ('expr', 'VERIF_MEMMOVE(%s, %s, %s)' % (A[0], A[1], A[2]))
+            return ('expr', ('VERIF_MEMMOVE(%s, %s, %s)' if lit else 'verif_memmove_v(%s, %s, %s)') % (A[0], A[1], A[2]))
         if name.startswith('llvm.memset.'):
-            return ('expr', 'VERIF_MEMSET(%s, %s, %s)' % (A[0], A[1], A[2]))
+            return ('expr', ('VERIF_MEMSET(%s, %s, %s)' if lit else 'verif_memset_v(%s, %s, %s)') % (A[0], A[1], A[2]))
         if name == 'llvm.trap':
             return ('expr', 'VERIF_TRAP()')
         m = re.fullmatch(r'llvm\.(smax|smin|umax|umin)\.i(\d+)', name)
@@ -1729,6 +1788,7 @@ def main():
     ap.add_argument('--no-nsw', dest='nsw', action='store_false', default=True)
     ap.add_argument('--fp-hooks', action='store_true')
     ap.add_argument('--no-devirt', action='store_true')
+    ap.add_argument('--new-array-max', type=int, default=0, help='bytes given to every operator new[] of non-constant size (typed allocation)')
     ap.add_argument('--root', action='append', default=[], help='extra reachability root (function called only from C models)')
     ap.add_argument('--list-external', help='write external (undefined) symbol list here')
     ap.add_argument('--list-functions', help='write names of translated functions here')
